@@ -14,12 +14,15 @@ hooks_commits = []
 hc = os.path.join(ROOT, "lib", "hook_commits.txt")
 if os.path.exists(hc):
     hooks_commits = [l.split()[0] for l in open(hc) if l.strip()]
+claimed = {l.strip() for l in open(os.path.join(ROOT, 'lib', 'claimed.txt')) if l.strip()}
 checks = []
 na = []
 engines = {}
 for p in props:
     pid = p["id"]
     e = reg.get(pid)
+    if pid not in claimed:
+        e = None
     if e is None or e.get("disabled"):
         na.append({"property_id": pid,
                    "reason": (e or {}).get("disabled", "check not built yet in this round (design in DESIGN.md section 4); not claimed until it runs green and has been shown to detect seeded breakage")})
